@@ -271,6 +271,7 @@ COMBINATORS = {
     'map_or_else': 'option', 'is_some_and': 'option', 'unwrap_or': 'option',
 }
 NO_CLOSURE = ('unwrap_or',)
+INT_TYPES = ('u8', 'u16', 'u32', 'u64', 'usize')
 
 
 def _new_local(host, ty):
@@ -332,6 +333,54 @@ def desugar_combinators(prog, F, host):
     for c in sorted(F.body.calls, key=lambda x: F.body.cfg.rpo.index(x.point[0]) if x.point[0] in F.body.cfg.rpo else 10 ** 6):
         cal = c.callee or {}
         nm = cal.get('name')
+        if nm == 'branch' and (cal.get('trait') or '').endswith('Try') and (cal.get('self_ty') or '').startswith('std::option::Option'):
+            # the `?` operator on an Option: Some(v) => Continue(v), None => Break(None)
+            blk = c.point[0]
+            t = host['blocks'][blk]['term']
+            if t['k'] == 'call' and t.get('target') is not None and len(t['args']) == 1 and t['args'][0].get('k') in ('move', 'copy'):
+                span, dest, target = t['span'], t['dest'], t['target']
+                opt_pl = t['args'][0]['place']
+                d = _new_local(host, 'isize')
+                stmts0 = list(host['blocks'][blk]['stmts'])
+                stmts0.append(_assign(_pl(d, 'isize'), {'k': 'discr', 'place': opt_pl}, span))
+                pp = dict(opt_pl)
+                pp['p'] = list(opt_pl['p']) + [['downcast', 'Some', 1], ['field', 0, '0', 'std::option::Option', '']]
+                cf = lambda var, idx, ops: {'k': 'agg', 'akind': 'adt', 'path': 'std::ops::ControlFlow', 'variant': {'name': var, 'idx': idx, 'fields': ['0']}, 'ops': ops}
+                resid = _new_local(host, 'std::option::Option<std::convert::Infallible>')
+                some_b = _new_block(host, [_assign(dest, cf('Continue', 0, [{'k': 'copy', 'place': pp}]), span)], {'k': 'goto', 'target': target, 'span': span})
+                none_b = _new_block(host, [_assign(_pl(resid, 'std::option::Option<std::convert::Infallible>'), _opt('None', []), span),
+                                           _assign(dest, cf('Break', 1, [{'k': 'move', 'place': _pl(resid, '')}]), span)], {'k': 'goto', 'target': target, 'span': span})
+                unreach = _new_block(host, [], {'k': 'unreachable', 'span': span})
+                host['blocks'][blk] = {'cleanup': False, 'stmts': stmts0, 'term': {'k': 'switch', 'discr': {'k': 'move', 'place': _pl(d, 'isize')}, 'dty': 'isize', 'targets': [[0, none_b], [1, some_b]], 'otherwise': unreach, 'span': span}}
+                n += 1
+            continue
+        if nm == 'from_residual' and (cal.get('trait') or '').endswith('FromResidual') and (cal.get('self_ty') or '').startswith('std::option::Option'):
+            blk = c.point[0]
+            t = host['blocks'][blk]['term']
+            if t['k'] == 'call' and t.get('target') is not None:
+                stmts0 = list(host['blocks'][blk]['stmts']) + [_assign(t['dest'], _opt('None', []), t['span'])]
+                host['blocks'][blk] = {'cleanup': False, 'stmts': stmts0, 'term': {'k': 'goto', 'target': t['target'], 'span': t['span']}}
+                n += 1
+            continue
+        if nm == 'checked_sub' and not cal.get('trait') and (cal.get('self_ty') or '') in INT_TYPES:
+            # x.checked_sub(y)  ==  if x >= y { Some(x - y) } else { None }   (unsigned)
+            blk = c.point[0]
+            t = host['blocks'][blk]['term']
+            if t['k'] == 'call' and t.get('target') is not None and len(t['args']) == 2:
+                span, dest, target = t['span'], t['dest'], t['target']
+                ity = cal['self_ty']
+                cnd = _new_local(host, 'bool')
+                dif = _new_local(host, ity)
+                stmts0 = list(host['blocks'][blk]['stmts'])
+                stmts0.append(_assign(_pl(cnd, 'bool'), {'k': 'bin', 'op': 'Ge', 'a': t['args'][0], 'b': t['args'][1]}, span))
+                some_b = _new_block(host, [_assign(_pl(dif, ity), {'k': 'bin', 'op': 'Sub', 'a': t['args'][0], 'b': t['args'][1]}, span),
+                                           _assign(dest, _opt('Some', [{'k': 'move', 'place': _pl(dif, ity)}]), span)], {'k': 'goto', 'target': target, 'span': span})
+                none_b = _new_block(host, [_assign(dest, _opt('None', []), span)], {'k': 'goto', 'target': target, 'span': span})
+                host['blocks'][blk] = {'cleanup': False, 'stmts': stmts0, 'term': {'k': 'switch', 'discr': {'k': 'move', 'place': _pl(cnd, 'bool')}, 'dty': 'bool', 'targets': [[0, none_b]], 'otherwise': some_b, 'span': span}}
+                n += 1
+                if not dest['p']:
+                    produced.add(dest['l'])
+            continue
         if nm not in COMBINATORS or cal.get('trait'):
             continue
         if nm in NO_CLOSURE:
@@ -546,6 +595,11 @@ def expand(prog):
                     sites.append((c.point[0], H, binding, flags))
             comb = [c for c in F.body.calls if (c.callee or {}).get('name') in COMBINATORS and not (c.callee or {}).get('trait') and ((c.callee or {}).get('closure_args') or (c.callee or {}).get('name') in NO_CLOSURE)
                     and ((c.callee or {}).get('self_ty') == 'bool' or ((c.callee or {}).get('self_ty') or '').startswith('std::option::Option'))]
+            comb += [c for c in F.body.calls if (c.callee or {}).get('name') == 'checked_sub' and not (c.callee or {}).get('trait') and ((c.callee or {}).get('self_ty') or '') in INT_TYPES]
+            comb += [c for c in F.body.calls if (c.callee or {}).get('name') in ('branch', 'from_residual') and ((c.callee or {}).get('trait') or '').split('::')[-1] in ('Try', 'FromResidual') and ((c.callee or {}).get('self_ty') or '').startswith('std::option::Option')]
+            # a lone `unwrap_or` is never rewritten on its own
+            if comb and all((c.callee or {}).get('name') in NO_CLOSURE for c in comb):
+                comb = []
             if not sites and not local_closure_sites and not comb:
                 continue
             # one site per round and function (block numbers of the others stay valid: blocks are only appended)
